@@ -943,8 +943,11 @@ func (m *Manager) decodeSessionExpiry(ctx *loadContext, id string, state *vlpers
 
 	// if persisted state has delayed will lets check if it has not elapsed its time
 	if len(state.Expire.Will) > 0 {
+		// see expiry.persistedState
 		pkt, _, _ := mqttp.Decode(mqttp.ProtocolV50, state.Expire.Will)
-		will, _ = pkt.(*mqttp.Publish)
+		if c, ok := pkt.(*mqttp.Connect); ok {
+			will = c.Will()
+		}
 
 		if will != nil {
 			if prop := will.PropertyGet(mqttp.PropertyWillDelayInterval); prop != nil {
